@@ -21,6 +21,8 @@ using namespace netsim;
 
 namespace {
 
+constexpr CAmount LARGE_COIN{10'000'000};     // coins above 0.1 BTC are split into 100 before tests spend them
+
 struct Forwarder : public CValidationInterface {
     Mutex m;
     node::TxDownloadManagerImpl* target GUARDED_BY(m){nullptr};
@@ -55,11 +57,11 @@ struct Shared {
     void NeedCoins()
     {
         NetSim& S = *sim;
-        if (S.coins.size() >= 30 && S.coins.front().out.nValue < COIN) return;
-        if (S.coins.empty() || S.coins.back().out.nValue < COIN) S.Fund(100);
+        if (S.coins.size() >= 30 && S.coins.front().out.nValue < LARGE_COIN) return;
+        if (S.coins.empty() || S.coins.back().out.nValue < LARGE_COIN) S.Fund(100);
         auto sp = S.OnTip();
         std::vector<CMutableTransaction> made;
-        for (int i = 0; i < 40 && !S.coins.empty() && S.coins.back().out.nValue > COIN; ++i) {
+        for (int i = 0; i < 40 && !S.coins.empty() && S.coins.back().out.nValue > LARGE_COIN; ++i) {
             const SimCoin c = S.coins.back(); S.coins.pop_back();
             CMutableTransaction m; m.version = 2;
             m.vin.emplace_back(c.op, CScript(), MAX_BIP125_RBF_SEQUENCE);
@@ -76,20 +78,24 @@ struct Shared {
         S.Advance(std::chrono::seconds{1});
     }
 
-    // confirms 20 more P2WSH coins
+    // confirms more P2WSH coins of 100,000 sat each (from a large coin if there is one)
     void FundWsh()
     {
         NetSim& S = *sim;
         NeedCoins();
-        const SimCoin c = S.TakeCoin();
+        SimCoin c;
+        if (S.coins.back().out.nValue > LARGE_COIN) { c = S.coins.back(); S.coins.pop_back(); } else c = S.TakeCoin();
+        const int count = (int)std::min<CAmount>(50, (c.out.nValue - 50000) / 100000);
+        if (count < 1) throw std::runtime_error("coin too small to fund P2WSH outputs");
         CMutableTransaction m; m.version = 2;
         m.vin.emplace_back(c.op, CScript(), MAX_BIP125_RBF_SEQUENCE);
-        for (int i = 0; i < 20; ++i) m.vout.emplace_back((c.out.nValue - 50000) / 20, wsh);
+        for (int i = 0; i < count; ++i) m.vout.emplace_back(100000, wsh);
+        if (c.out.nValue - 50000 - (CAmount)count * 100000 > 1000) m.vout.emplace_back(c.out.nValue - 50000 - (CAmount)count * 100000, S.wpkh);   // change (not reused)
         S.SignWpkh(m, 0, c.out);
         auto sp = S.OnTip(); sp.txs = {MakeTransactionRef(m)};
         auto b = S.BuildBlock(sp);
         if (!S.SubmitOwn(b) || S.Tip()->GetBlockHash() != b->GetHash()) throw std::runtime_error("funding block not connected");
-        for (uint32_t i = 0; i < 20; ++i) wsh_coins.push_back(NetSim::OutputOf(m, i));
+        for (int i = 0; i < count; ++i) wsh_coins.push_back(NetSim::OutputOf(m, (uint32_t)i));
         S.Advance(std::chrono::seconds{1});
     }
 
